@@ -128,22 +128,21 @@ def main() -> int:
     if a.only:
         plan = [s for s in plan if a.only in s.id]
     kf = load_kf()
-    my_kf = [f for f in kf["findings"] if f["property"] == pid]
+    my_kf = [f for f in kf["findings"] if f["property"] == pid and f.get("engine") == "C"]
 
-    violations, harness_errors, inconclusive, known_lines = [], [], [], []
+    violations, harness_errors, inconclusive, known_lines = [], [], [], {}
     results: list[dict] = []
 
     # 1. known findings: replay each listed input on the current tree
     for f in my_kf:
         rp = f["replay"]
-        if rp.get("engine") == "K":
-            continue  # K findings are re-derived by their own query (region still satisfiable), see below
-        r = replay_native(rp["module"], rp["func"], rp["args"], rp.get("env"))
-        sig = _signature(r)
-        if sig == f["signature"]:
-            known_lines.append(f"KNOWN-FINDING: property={pid} {f['id']}: {f['what']}")
+        if a.only and a.only not in rp["func"] and a.only not in rp["module"]:
+            continue
+        r = replay_native(rp["module"], rp["func"], rp["args"], {"VERIF_KF_OFF": "1", **rp.get("env", {})})
+        if r["outcome"] == "false" and f["label"] in r.get("detail", ""):
+            known_lines[f["id"]] = f"KNOWN-FINDING: property={pid} {f['id']}: {f['what']}"
         else:
-            print(f"note: known finding {f['id']} no longer reproduces (now: {sig})")
+            print(f"note: known finding {f['id']} no longer reproduces (now: {r['outcome']} {r.get('detail', '')[:200]})")
 
     # 2. run the plan
     jobs = []
@@ -190,16 +189,8 @@ def main() -> int:
                 h = hashlib.sha1(json.dumps([r["module"], r["function"], cex["args"]], sort_keys=True).encode()).hexdigest()[:10]
                 path = replay_dir / f"{pid}-{h}.json"
                 if rr["outcome"] in ("false", "repo_exception"):
-                    match = [f for f in my_kf if f["signature"] == sig and f["replay"].get("func") == r["function"]
-                             and f.get("match") == "signature"]
-                    if match:
-                        line = f"KNOWN-FINDING: property={pid} {match[0]['id']}: {match[0]['what']}"
-                        if line not in known_lines:
-                            known_lines.append(line)
-                        inconclusive.append(f"{tag}: stopped at known finding {match[0]['id']}")
-                    else:
-                        path.write_text(json.dumps(rp, indent=1))
-                        violations.append((str(path), f"{tag}: {r.get('cex_message')} -> native {sig}: {rr.get('detail', '')[:300]}"))
+                    path.write_text(json.dumps(rp, indent=1))
+                    violations.append((str(path), f"{tag}: {r.get('cex_message')} -> native {sig}: {rr.get('detail', '')[:300]}"))
                 else:
                     harness_errors.append(f"{tag}: counterexample does not reproduce natively ({rr}); args={cex['args']}")
             elif v in ("not_confirmed", "pre_unsat"):
@@ -227,9 +218,7 @@ def main() -> int:
                     path.write_text(json.dumps(rp, indent=1, default=str))
                     violations.append((str(path), f"{tag}: {q.get('detail', '')} cex={q.get('cex')}"))
                 elif v == "known":
-                    line = f"KNOWN-FINDING: property={pid} {q['known_id']}: {q.get('detail', '')}"
-                    if line not in known_lines:
-                        known_lines.append(line)
+                    known_lines.setdefault(q["known_id"], f"KNOWN-FINDING: property={pid} {q['known_id']}: {q.get('detail', '')}")
                 elif v == "harness_error":
                     harness_errors.append(f"{tag}: {q.get('detail')}")
                 else:
@@ -239,6 +228,7 @@ def main() -> int:
                                     "cex": q.get("cex")})
 
     # K-side known findings listed in the file but not re-derived this run are simply not printed.
+    known_lines = list(known_lines.values())
     for line in known_lines:
         print(line)
     for i in inconclusive:
